@@ -144,6 +144,14 @@ var selectCorpus = []struct {
 	{[]string{"x", "a/x", "a/b/x", "y"}, []string{"**/**/**/**/x"}, nil},
 	{[]string{"a/x.go", "a/b/x.go", "x.go"}, []string{"a/**/**/**/*.go"}, []string{"**/**/**/b/**"}},
 	{[]string{"a/x.go", "b", "src/a/y.go"}, []string{"**/**/**/**/**"}, nil},
+	// several include patterns that look related as STRINGS (one is a prefix of the other, one "covers" the other)
+	{[]string{"src/a.go", "src/d/e.go", "srcgen/b.go", "srcgen/c.txt", "x.go"}, []string{"src/**", "srcgen/*.go"}, nil},
+	{[]string{"src/a.go", "src/d/e.go", "srcgen/b.go", "srcgen/c.txt", "x.go"}, []string{"srcgen/*.go", "src/**"}, []string{"**/e.go"}},
+	{[]string{"a/x", "ab/y", "ab/d/z", "b"}, []string{"a/**", "ab/*"}, nil},
+	{[]string{"a/x.go", "x.go", "b/y.txt", "main.txt"}, []string{"*/**", "*.go"}, nil},
+	{[]string{"a/x.go", "x.go", "b/y.txt", "main.txt"}, []string{"*/**", "**"}, []string{"main.*"}},
+	{[]string{"src/a.go", "src/d/e.go", "src/d/f.txt", "x.go"}, []string{"src/**", "src/*.go", "src/**/*.txt"}, nil},
+	{[]string{"a/x.go", "a/b/y.go", "b/a/z.go"}, []string{"a/**", "**/a/*.go", "a"}, []string{"a/b/**"}},
 }
 
 func selectCase(col *Collector, rng *rand.Rand) {
